@@ -7,7 +7,7 @@
    (2) lp_variable_order_reverse swaps the entries of the list but leaves var_to_index_map - the table
        lp_variable_order_cmp and pop consult - as it was. *)
 From Coq Require Import ZArith NArith List Bool Lia.
-From LP Require Import MPoly VarOrder.
+From LP Require Import MPoly VarOrder VarOrderInv.
 Import ListNotations.
 Local Open Scope Z_scope.
 
@@ -15,8 +15,7 @@ Local Open Scope Z_scope.
 Definition hz0 (a : Z) : N := Z.to_N (Z.abs a).
 Definition hp0 (x : var) (d : N) : N := (x * 64 + d + 1000)%N.
 
-Definition cache_ok (hz : Z -> N) (hp : var -> N -> N) (p : poly) : Prop :=
-  pcache p = 0%N \/ pcache p = nz (coef_hash hz hp (pdata p)).
+(* the cache invariant: VarOrderInv.cache_ok hz hp p := pcache p = 0 \/ pcache p = nz (coef_hash hz hp (pdata p)) *)
 
 (* x0 + 1, hashed, then x0 added in place: the object is 2*x0 + 1 but still carries the hash of x0 + 1 *)
 Definition stale_history : list op :=
